@@ -304,3 +304,35 @@ Theorem toast_base_passes_options_through :
             te_filtered_core (toast_base o) = tb_filtered o /\ te_tile_levels (toast_base o) = tb_depth o.
 Proof. exact passthrough. Qed.
 Print Assumptions toast_base_passes_options_through.
+
+(* ------------------------------------------------------------------ *)
+(* `toasty tile-healpix` (cli.tile_healpix_impl), tied by TRANSLATION: Generated/CliHealpixSrc.v is
+   the function as harness/py2coq.py reads it from toasty/cli.py in /repo's working tree on every
+   build; under every valuation of the settings it behaves like the hand-written model
+   (Model/CliScript.v), in which --depth is the sampled depth, --parallelism the worker count, the
+   sampler is read from --fitspath with --galactic, no option that would change the coordinate system
+   or route of Builder.toast_base (theorems above) is given, and the WTML is written afterwards by
+   the builder that sampled.  Proofs in Proofs/CliHealpixP.v. *)
+From Coq Require Import String.
+From Toasty Require Import Model.SrcPrelude Model.CliScript Generated.CliHealpixSrc Proofs.CliHealpixP.
+Local Open Scope string_scope.
+
+Theorem src_tile_healpix_impl_is_model :
+  forall (is_none : sval unit -> bool) (eq_lit : sval unit -> string -> bool) (is_true : sval unit -> bool),
+  run_tree is_none eq_lit is_true src_cli_tile_healpix_impl = tile_healpix_impl_model.
+Proof. exact src_tile_healpix_impl_eq. Qed.
+Print Assumptions src_tile_healpix_impl_is_model.
+
+Theorem tile_healpix_passes_options_through :
+  (exists e1 e2, tile_healpix_impl_model = (true, [e1; e2]) /\
+    call_name e1 = "toast_base" /\ call_name e2 = "write_index_rel_wtml" /\
+    call_recv e1 = Some hp_builder /\ call_recv e2 = Some hp_builder /\
+    hp_builder = SNewP "Builder" [pyramid_at (setting "outdir") [("default_format", SStr "fits")]] []) /\
+  (forall e, nth_error (snd tile_healpix_impl_model) 0 = Some e ->
+    call_pos e = [SNewP "healpix_fits_file_sampler" [setting "fitspath"] [("force_galactic", setting "galactic")];
+                  setting "depth"] /\
+    call_kw "parallel" e = Some (setting "parallelism") /\
+    call_kw "coordsys" e = None /\ call_kw "is_planet" e = None /\ call_kw "is_pano" e = None /\
+    call_kw "tile_filter" e = None).
+Proof. split; [exact healpix_calls | exact healpix_plumbing]. Qed.
+Print Assumptions tile_healpix_passes_options_through.
